@@ -104,6 +104,13 @@ func genTwinBook(r *rand.Rand, allowKnown bool) twinBook {
 		if r.Intn(6) == 0 && gs.vkind == "" {
 			rows = append(rows, make([]string, len(names)))
 		}
+		// AdjacentKey (blank key cells take the key of the line above), with trailing blank lines in the CSV twin
+		if r.Intn(5) == 0 {
+			meta["AdjacentKey"] = "true"
+			for k := 1 + r.Intn(2); k > 0; k-- {
+				rows = append(rows, make([]string, len(names)))
+			}
+		}
 		// a remark cell right of the table in a data row: CSV header rows get trailing blank cells
 		if r.Intn(5) == 0 && len(rows) > 3 && (allowKnown || !lastOne) && len(meta) >= 0 {
 			k := 3 + r.Intn(len(rows)-3)
